@@ -51,7 +51,7 @@ fn hex(b: &[u8]) -> String {
     }
 }
 
-fn check_dec(case: &DecCase, st: &mut Stats) -> Result<(), String> {
+pub fn check_dec(case: &DecCase, st: &mut Stats) -> Result<(), String> {
     let (e, valid, m, labels) = dec_input(case);
     // sanity of the generator: the unmutated encoding is accepted
     if let Err(err) = (e.roundtrip)(&valid) {
@@ -159,7 +159,7 @@ pub struct NoiseCase {
     stream_bytes: Vec<u8>,
 }
 
-fn gen_noise(ch: &mut Choices) -> NoiseCase {
+pub fn gen_noise(ch: &mut Choices) -> NoiseCase {
     let bytes = |ch: &mut Choices| -> Vec<u8> {
         let mut v = vec![];
         let frames = ch.below(4);
@@ -178,7 +178,7 @@ fn gen_noise(ch: &mut Choices) -> NoiseCase {
     NoiseCase { server: ch.bool(), handshake_bytes: hs, stream_bytes: bytes(ch) }
 }
 
-fn check_noise(case: &NoiseCase, st: &mut Stats) -> Result<(), String> {
+pub fn check_noise(case: &NoiseCase, st: &mut Stats) -> Result<(), String> {
     det::run(|| async {
         let life = det::Life::new();
         let ctx = life.child();
@@ -261,7 +261,7 @@ pub struct MuxRawCase {
     close: bool,
 }
 
-fn gen_mux_raw(ch: &mut Choices) -> MuxRawCase {
+pub fn gen_mux_raw(ch: &mut Choices) -> MuxRawCase {
     let handshake = ch.chance(1, 6).then(|| {
         let n = ch.pick(&[0usize, 3, 4, 5, 20]);
         let mut v: Vec<u8> = (0..n).map(|_| ch.raw() as u8).collect();
@@ -289,7 +289,7 @@ fn gen_mux_raw(ch: &mut Choices) -> MuxRawCase {
     MuxRawCase { handshake, frames, readers: ch.below(3) as u8, close: ch.chance(3, 4) }
 }
 
-fn check_mux_raw(case: &MuxRawCase, st: &mut Stats) -> Result<(), String> {
+pub fn check_mux_raw(case: &MuxRawCase, st: &mut Stats) -> Result<(), String> {
     det::run(|| async {
         let life = det::Life::new();
         let ctx = life.child();
@@ -391,7 +391,7 @@ pub struct RpcCase {
     sessions: Vec<(bool, RpcAttack)>,
 }
 
-fn gen_rpc(ch: &mut Choices) -> RpcCase {
+pub fn gen_rpc(ch: &mut Choices) -> RpcCase {
     let n = 1 + ch.below(6);
     let sessions = (0..n)
         .map(|_| {
@@ -437,7 +437,7 @@ impl hook::ConsensusHandler for CountingHandler {
     }
 }
 
-fn check_rpc(case: &RpcCase, st: &mut Stats) -> Result<(), String> {
+pub fn check_rpc(case: &RpcCase, st: &mut Stats) -> Result<(), String> {
     det::run(|| async {
         let life = det::Life::new();
         let ctx = life.child();
@@ -672,4 +672,17 @@ pub fn main(env: &Env) -> i32 {
         &["a caught panic equals a process abort of a real node (the repository builds with panic=abort)", "overflow-check panics exist only in builds with overflow checks (the repository's dev/test profile)"],
         parts,
     )
+}
+
+/// libFuzzer bridge: the first choice selects the type, the rest drive the sample and the mutation.
+pub fn fuzz_gen_dec(ch: &mut Choices) -> DecCase {
+    let ty = ch.below(entries().len());
+    let mut choices = vec![];
+    for _ in 0..160 {
+        choices.push(ch.raw());
+    }
+    while choices.last() == Some(&0) {
+        choices.pop();
+    }
+    DecCase { ty, name: entries()[ty].name.to_string(), choices }
 }
